@@ -4,7 +4,7 @@ CONSTANTS
   MaxConn = 3
   MaxFrames = 3
   MaxCancels = 3
-  Fixed = FALSE
+  Fixes = {}
 SPECIFICATION Spec
 INVARIANTS TypeOK Routed TerminalLocal NothingAfterTerminal SharedOnlyIfSameKey NoLeak NoStall
 CHECK_DEADLOCK FALSE
